@@ -26,6 +26,7 @@ import (
 	"github.com/canopy-network/canopy/lib"
 	"github.com/canopy-network/canopy/lib/crypto"
 	"github.com/canopy-network/canopy/p2p"
+	"github.com/canopy-network/canopy/store"
 	"google.golang.org/protobuf/encoding/protowire"
 	"google.golang.org/protobuf/proto"
 	"google.golang.org/protobuf/reflect/protoreflect"
@@ -527,6 +528,63 @@ func keysMode(seed int64, n int, enc *json.Encoder) {
 		{"unstaking", fsm.UnstakingPrefix, "unstaking", true},
 		{"paused", fsm.PausedPrefix, "paused", true},
 		{"order", fsm.OrderBookPrefix, "order", true},
+	}
+	// the same question put to the REAL store: every built key is written, and each family's prefix is scanned in both
+	// directions, before and after the commit (pending writes are merged by the transaction iterator, committed ones come from
+	// the versioned store): a key is listed iff it belongs to the family
+	if db, err := store.NewStoreInMemory(lib.NewNullLogger()); err == nil {
+		st := db.(*store.Store)
+		for _, b := range all {
+			if b.builder != "" {
+				_ = st.Set(b.key, []byte{1})
+			}
+		}
+		scan := func(p []byte, rev bool) map[string]bool {
+			got := map[string]bool{}
+			var it lib.IteratorI
+			var e lib.ErrorI
+			if rev {
+				it, e = st.RevIterator(p)
+			} else {
+				it, e = st.Iterator(p)
+			}
+			if e != nil {
+				return got
+			}
+			defer it.Close()
+			for ; it.Valid(); it.Next() {
+				got[string(it.Key())] = true
+			}
+			return got
+		}
+		for _, phase := range []string{"pending", "committed"} {
+			for _, r := range ranges {
+				for _, c := range []uint64{0, 1, 2, 255, 256, 65535, 1 << 32, 1<<64 - 1, 3, 4} {
+					p := r.prefix(c)
+					fwd, bwd := scan(p, false), scan(p, true)
+					for _, b := range all {
+						if b.builder == "" {
+							continue
+						}
+						belongs := b.builder == r.builder && (!r.keyed || bytes.Equal(b.comps[0], u64(c)))
+						for dir, got := range map[string]map[string]bool{"forward": fwd, "reverse": bwd} {
+							if in := got[string(b.key)]; in || belongs {
+								_ = enc.Encode(Line{E: "range", Kind: r.name + "/store-" + phase + "-" + dir, InRange: in, Belongs: belongs, Path: []string{}})
+							}
+						}
+					}
+					if !r.keyed {
+						break
+					}
+				}
+			}
+			if phase == "pending" {
+				if _, e := st.Commit(); e != nil {
+					break
+				}
+			}
+		}
+		st.Close()
 	}
 	for _, r := range ranges {
 		for _, c := range []uint64{0, 1, 2, 255, 256, 65535, 1 << 32, 1<<64 - 1, 3, 4} {
